@@ -11,7 +11,7 @@ import CJ.Drv.Util
 * dial: `-`, or `O,<hosthex>,<port>,<hostIsIP 0/1>,<unspecified 0/1>`: what `SplitHostPort` / `ParseIP` say about the string that
   `Proxy` hands to `net.Dial`
 * dnsVisible: does one resolution of this host cause DNS traffic (the unit in which lookups are counted)
-→ `<outhex>|<lookup>|<lookups>|<stored covert hex or ->|<valid>|<dial: - | L,<hosthex>,<port> | S,<port> (local system) | R | B>`
+→ `<outhex>|<lookup>|<lookups>|<stored covert hex or ->|<valid>|<dial: - | L,<hosthex>,<port> | S,<port> (local system) | R | B>|<Covert of the object when it was marked valid and announced, hex, or ->`
 
 **Several workers for one key, interleaved**
 `csched|<enableAllow>|<schedule: worker digits>|<check order: worker digits>|W|<the 8 per-worker fields>|W|…`
@@ -132,7 +132,12 @@ def handle (args : List String) : Option String :=
           | .resolved _ _ => some "R"
           | .bad => some "B"
         | _ => none)
-    some (stringToHex r.out ++ "|" ++ showBool r.lookup ++ "|" ++ toString lookups ++ "|" ++ showStore wB ++ "|" ++ dialed)
+    -- the Covert field of the object at the moment it is marked valid and announced (`register`): by
+    -- `valid_implies_checked_covert` it is what the entry holds from then on
+    let announced := match wA.store with
+      | some e => if e.valid then stringToHex (wA.covertOf e.ptr) else "-"
+      | none => "-"
+    some (stringToHex r.out ++ "|" ++ showBool r.lookup ++ "|" ++ toString lookups ++ "|" ++ showStore wB ++ "|" ++ dialed ++ "|" ++ announced)
   | _ => none
 
 def handleSched (args : List String) : Option String :=
